@@ -285,3 +285,10 @@ package deps
 //@   modifies alloc
 //@ trusted func (t store.QueryTransformer) TransformEvents(events []store.ResultEvent) (out []store.ResultEvent, err error)
 //@   modifies alloc
+//@ trusted func timerqueue.New(cb func(v interface{}), d time.Duration) (q *timerqueue.Queue)
+//@   modifies alloc
+//@   ensures q != nil
+//@ # a channel that is local to one function and never sent on (serve's workCh): closing it cannot disturb a sender
+//@ trusted func builtin.closeLocal(c chan *res.work)
+//@   modifies ghost.chclosed
+//@   ensures chclosed == store(old(chclosed), ref(c), true)
